@@ -23,8 +23,8 @@ func init() {
 	})
 	property(&Property{
 		ID:      "C05",
-		Rules:   []string{"SA-J", "SA-JT", "SA-J3", "SA-JT3", "SA-Jglue", "CT-1"},
-		Explain: "CT-1: the scanners' window is the whole text — data and dataSize are set by the constructor only, from the file's Content() and its length. SA-Jglue: the one rule Document.Check adds to the scanner's verdict — a text for which the scanner delivers no lexeme is rejected as empty JSON, any other text is accepted when the scanner ends normally, scanner errors are returned unchanged — is read off Document.check and Document.nextLexeme themselves (scanner replaced by a staged oracle); the product rules take it as given. The transition relation of the formats/json scanner is extracted from its own Next() method by abstract interpretation of the SSA (scanner object tracked exactly, one input byte at a time, positions symbolic) and compared, by breadth-first product construction, with a reference RFC 8259 byte transducer: in every reachable state pair up to the nesting bound (2 quick, 4 thorough), for each of the 256 byte values and for end of input, the scanner rejects iff the reference rejects, accepts end of input iff the reference does (including the empty-document rule of Document.check), in strict mode and with AllowTrailingNonSpaceCharacters. Literal tokens (strings, numbers, true/false/null) are unbounded in length: their automaton states are merged, so the token language is decided for all lengths.",
+		Rules:   []string{"SA-J", "SA-JT", "SA-J3", "SA-JT3", "SA-Jglue", "CT-1", "ST-model"},
+		Explain: "ST-model: the stack the scanners keep their open lexemes in behaves like a plain list from every reachable (length, capacity) state with up to 40 elements — beyond the nesting bound of the products. CT-1: the scanners' window is the whole text — data and dataSize are set by the constructor only, from the file's Content() and its length. SA-Jglue: the one rule Document.Check adds to the scanner's verdict — a text for which the scanner delivers no lexeme is rejected as empty JSON, any other text is accepted when the scanner ends normally, scanner errors are returned unchanged — is read off Document.check and Document.nextLexeme themselves (scanner replaced by a staged oracle); the product rules take it as given. The transition relation of the formats/json scanner is extracted from its own Next() method by abstract interpretation of the SSA (scanner object tracked exactly, one input byte at a time, positions symbolic) and compared, by breadth-first product construction, with a reference RFC 8259 byte transducer: in every reachable state pair up to the nesting bound (2 quick, 4 thorough), for each of the 256 byte values and for end of input, the scanner rejects iff the reference rejects, accepts end of input iff the reference does (including the empty-document rule of Document.check), in strict mode and with AllowTrailingNonSpaceCharacters. Literal tokens (strings, numbers, true/false/null) are unbounded in length: their automaton states are merged, so the token language is decided for all lengths.",
 		Assume: []string{
 			"nesting deeper than the bound is not explored (the scanner inspects only the top two stack entries)",
 			"the glue in Document.check/nextLexeme (recover, EndTop => EOF, zero lexemes => ErrEmptyJson) is modelled in the driver as read on the pinned tree; a change there is outside this rule",
@@ -37,8 +37,8 @@ func init() {
 	})
 	property(&Property{
 		ID:      "C06",
-		Rules:   []string{"SA-J", "SA-S", "SA-E", "T-enum", "SA-J3", "SA-S-deep", "SA-E-deep", "CT-1"},
-		Explain: "CT-1: the scanners' window is the whole text — data and dataSize are set by the constructor only, from the file's Content() and its length. Same product as C05, comparing in addition the lexical events: on every byte and at end of input the formats/json scanner model must emit exactly the events of the reference transducer (types, order, and spans written relative to the consumed byte and to the begin offsets of the open events): literal/key spans = the source token, container spans from opening to closing bracket, wrappers closed on the first byte after the value. SA-S / SA-E run the same product against the schema scanner and the enum-rule scanner restricted to plain JSON input: every byte the reference accepts must be accepted with the same events (new-line events dropped; exponents, and for enum rules non-array roots and nested containers, are documented deviations; duplicate detection of the enum scanner abstracted).",
+		Rules:   []string{"SA-J", "SA-S", "SA-E", "T-enum", "SA-J3", "SA-S-deep", "SA-E-deep", "CT-1", "ST-model"},
+		Explain: "ST-model: same clause (a stack that loses elements once it has grown changes the events of deeply nested documents only). CT-1: the scanners' window is the whole text — data and dataSize are set by the constructor only, from the file's Content() and its length. Same product as C05, comparing in addition the lexical events: on every byte and at end of input the formats/json scanner model must emit exactly the events of the reference transducer (types, order, and spans written relative to the consumed byte and to the begin offsets of the open events): literal/key spans = the source token, container spans from opening to closing bracket, wrappers closed on the first byte after the value. SA-S / SA-E run the same product against the schema scanner and the enum-rule scanner restricted to plain JSON input: every byte the reference accepts must be accepted with the same events (new-line events dropped; exponents, and for enum rules non-array roots and nested containers, are documented deviations; duplicate detection of the enum scanner abstracted).",
 		Assume: []string{
 			"rebuilding the JSON value from the events is not decided (content is symbolic)",
 			"nesting beyond the bound not explored",
